@@ -169,6 +169,26 @@ def run(prop, tier, seed):
     allc = cases + ws_cases
     for i, d in bad[:20]:
         run_.violation("concrete", d, dict(case=allc[i], impl=impl[i], model=model[i], replay_cmd="./check %s --replay <this file>" % prop))
+    extra_mism = 0
+    # ---- apply_patch level: drifted targets, many hunks with accumulated offsets, re-applied patches (-t / -N)
+    import applyc
+    na = 1500 if tier == "quick" else 20000
+    for fam in (applyc.family_drifted(rng, na), applyc.family_multi(rng, na)):
+        ac, ai, am, amism, abad = applyc.run_drifted(run_, prop, rng, 0, prop, fam=fam)
+        for i, d in abad[:10]:
+            run_.violation("concrete", d, dict(case=ac[i], impl=ai[i], model=am[i]))
+        extra_mism += len(amism)
+        if amism and not abad and not bad:
+            i = amism[0]
+            run_.violation("no-input", "correspondence L1 APPLY broken on %d cases" % len(amism), dict(broken="correspondence L1 apply_patch", case=ac[i], impl=ai[i], model=am[i]))
+    rc, ri, rm, rmism, rbad = applyc.run_family_plain(run_, applyc.family_reapply(rng, na), "reapply")
+    for i, d in rbad[:10]:
+        run_.violation("concrete", d, dict(case=rc[i], impl=ri[i], model=rm[i]))
+    for i in rmism[:1]:
+        # the model is proved to place hunks admissibly (also after a reversal): a disagreement here is judged by re-running the
+        # placement oracle on the hunks the implementation says it applied
+        run_.violation("no-input" if not run_.violations else "concrete", "correspondence L1 APPLY (reversed-patch handling, -t/-N) broken on %d cases" % len(rmism),
+                       dict(broken="correspondence L1 apply_patch with reversed-patch detection", case=rc[i], impl=ri[i], model=rm[i]))
     if mism and not bad:
         i = mism[0]
         run_.violation("no-input", "correspondence L1 (LOCATE/WSMATCH) broken: model and implementation differ on %d of %d cases" % (len(mism), len(impl)),
@@ -179,7 +199,7 @@ def run(prop, tier, seed):
                         "WSMATCH: exhaustive pairs over {space,tab,x,y} up to length %d + random. Non-trivial = the implementation answered FOUND/NOTFOUND; distinct by hash of the case line."
                         % ((2, 3) if tier == "quick" else (3, 5)))
     run_.cov["exhaustive_small_scope_cases"] = len(exh)
-    run_.cov["correspondence_mismatches"] = len(mism)
+    run_.cov["correspondence_mismatches"] = len(mism) + extra_mism + len(rmism)
     for c in (cases[len(corpus):len(corpus) + 3] + ws_cases[-2:]):
         run_.sample(c)
     run_.assumptions += ["locate_hunk is called with a non-negative cursor (apply_patch's line_number)",
